@@ -43,6 +43,23 @@ def generate(prop, seed, tier):
         for a, b in zip(cyc, cyc[1:] + cyc[:1]):
             if [a, b] not in edges:
                 edges.append([a, b])
+    deep = None
+    if g.random() < 0.04:
+        # a deep digraph: one long path (optionally closed to a ring, with a few chords), presented in path order so that
+        # the depth-first search really descends that far (well inside the interpreter's recursion limit: the library's
+        # scc is recursive and handles ~980 on this tree)
+        m = g.randrange(200, 701)
+        de = [[i, i + 1] for i in range(m - 1)]
+        kind = g.choice(['path', 'ring', 'chords', 'backpath'])
+        if kind == 'ring':
+            de.append([m - 1, 0])
+        elif kind == 'chords':
+            for _ in range(g.randrange(1, 6)):
+                a_, b_ = g.randrange(m), g.randrange(m)
+                de.append([max(a_, b_), min(a_, b_)])
+        elif kind == 'backpath':
+            de = [[i + 1, i] for i in range(m - 1)]
+        deep = {'n': m, 'edges': de, 'start': g.choice([0, 0, m - 1, g.randrange(m)])}
     orders = []
     for _ in range(g.randrange(3, 7)):
         orders.append({'v': g.perm(n), 'succ_seed': g.randrange(1 << 30)})
@@ -57,10 +74,20 @@ def generate(prop, seed, tier):
             'new_start': g.random() < 0.4, 'ops': [g.choice(['add_rule', 'set_start', 'query', 'edit_rhs', 'remove_rhs_edge', 'label_without_edge']) for _ in range(g.randrange(1, 6))],
             'choices': [g.randrange(1 << 16) for _ in range(8)]}
     return {'engine': 'sccsim', 'prop': prop, 'seed': seed, 'n': n, 'edges': edges, 'orders': orders, 'naming': naming,
-            'spec': spec, 'pres': pres, 'hist': hist}
+            'spec': spec, 'pres': pres, 'hist': hist, 'deep': deep}
 
 
 def reducers(case):
+    if case.get('deep'):
+        c = copy.deepcopy(case)
+        c['deep'] = None
+        yield c
+        if case['deep']['n'] > 8:
+            # halve the deep graph (keep edges among the first half)
+            c = copy.deepcopy(case)
+            h = case['deep']['n'] // 2
+            c['deep'] = {'n': h, 'edges': [e for e in case['deep']['edges'] if e[0] < h and e[1] < h], 'start': min(case['deep']['start'], h - 1)}
+            yield c
     yield from list_reductions(case, ['edges'])
     yield from list_reductions(case, ['orders'], min_len=1)
     yield from list_reductions(case, ['pres'])
@@ -162,6 +189,31 @@ def execute(case):
                 sigs.add(json.dumps([[sorted(str(x) for x in cc)] for cc in comps]))
                 log.add('scc', [[names.index(v) for v in cc] for cc in comps])
             c.inc('probe.distinct-orderings-of-result', len(sigs))
+            if case.get('deep'):
+                import networkx as nx
+                dp = case['deep']
+                m, de = dp['n'], [tuple(e) for e in dp['edges']]
+                dg = nx.DiGraph()
+                dg.add_nodes_from(range(m))
+                dg.add_edges_from(de)
+                dref = {}
+                for comp_ in nx.strongly_connected_components(dg):
+                    fs = frozenset(comp_)
+                    for v in fs:
+                        dref[v] = fs
+                vorder = list(range(dp['start'], m)) + list(range(dp['start']))
+                gd = {v: {} for v in vorder}
+                for u, v in de:
+                    gd[u][v] = None
+                comps = U.scc(gd)
+                c.inc('scc.calls')
+                c.inc('probe.deep-graph')
+                check_scc_result(comps, list(range(m)), m, de if m <= 12 else [], dref, ['deep'])
+                pos = {v: ci for ci, cc in enumerate(comps) for v in cc}
+                for u, v in de:
+                    if pos[u] < pos[v]:
+                        V('scc-order', ['deep'], f'edge {u}->{v} goes from component #{pos[u]} into the later component #{pos[v]} (path of {m} vertices)')
+                log.add('deep', m, len(comps))
             if any(len(s) >= 2 for s in comp_ref.values()):
                 c.inc('probe.nontrivial-cycle')
             # ---- nonterminal_graph under construction orders
